@@ -410,3 +410,30 @@ def build_any(mt, order=None, **kw):
             treeoutput.export(t, io.StringIO())
         return t
     return build(mt, child_order=order, **kw)
+
+
+_SEP_HISTORY = [None]
+
+
+def reader_history():
+    """Part of a process history: some other corpus was read earlier with reader options of its own (gf_split with
+    the separator '#', from each of the three readers in turn).  Whatever that leaves behind in the process must
+    not reach later calls that do not name a separator."""
+    from .runner import scratch
+    from . import codecs
+    from trees import treeinput
+    if _SEP_HISTORY[0] is None or not all(os.path.exists(p) for p in _SEP_HISTORY[0]):
+        base = os.path.join(scratch(), 'sephist-%d' % os.getpid())
+        mt = model.MT(5, model.mk_tokens(2, pos=['NN#HD', 'VB']), ('VROOT', '--', (('S#OC', '--', (1, 2)),)))
+        for ext, text in (('.export', codecs.encode_export([mt])), ('.xml', codecs.encode_tigerxml([mt])),
+                          ('.mrg', codecs.encode_brackets([mt]))):
+            with open(base + ext, 'w', encoding='utf-8') as f:
+                f.write(text)
+        _SEP_HISTORY[0] = [base + '.export', base + '.xml', base + '.mrg']
+        _SEP_HISTORY.append(0)
+    _SEP_HISTORY[1] = (_SEP_HISTORY[1] + 1) % 3
+    k = _SEP_HISTORY[1]
+    with quiet():
+        for _ in [treeinput.export, treeinput.tigerxml, treeinput.brackets][k](_SEP_HISTORY[0][k], 'utf-8', quiet=True,
+                                                                                   gf_split=True, gf_separator='#'):
+            pass
